@@ -60,7 +60,7 @@ def classify(rec, fam, which):
 
 def plan(tier, seed):
     n = 16
-    per = 16000 if tier == 'quick' else 400000
+    per = 50000 if tier == 'quick' else 400000
     return [dict(part=i, seed=seed * 100 + i, n=per) for i in range(n)]
 
 
